@@ -15,6 +15,10 @@ CONSTANTS
   AdvArgs <- AdvBig
   SetArgs <- SetBig
   Msgs <- MsgsQ
+  MCFreq = 1
+  Switch <- SwitchQ
+  Rewidth <- RewidthQ
+  Charsets <- CharsQ
   Depth = 24
 VIEW HView
 PROPERTY PFrameShape
